@@ -188,6 +188,11 @@ def rdata_name(draw, ctx):
     pool = ctx.get("pool")
     if k == 0:
         return [b""]
+    if k == 9:
+        # a single hostile label, alone under the origin (printed relative it is the whole token) or
+        # under the root: the characters that mean something to the master-file syntax
+        lab = draw(st.sampled_from([b"@", b"@", b"*", b"$", b"$ORIGIN", b"\\", b'"', b";", b" ", b".", b"(", b")", b"\t", b"\n", b"\\#", b"a b", b"\x00", b"\xff", b"@@", b"a@"]))
+        return [lab] + (list(origin) if origin is not None and draw(st.booleans()) else [b""])
     if k <= 3 and origin is not None:
         pre = draw(G.rel_labels(max_wire=254 - G.wire_len(origin), max_labels=3))
         # the origin part is sometimes spelled in another case than the origin itself
@@ -522,7 +527,10 @@ def t_TSIG(b):
     if len(b.counted16()) == 0:
         b.flags.add("text-lossy")  # ... nor an empty MAC
     b.u16()
-    b.u16(b.draw(st.sampled_from([0, 16, 17, 18, 22, 1, 4095, 65535])))
+    err = b.draw(st.sampled_from([0, 16, 17, 18, 22, 1, 4095, 65535]))
+    if err > 4095:
+        b.flags.add("must-reject")  # the library holds the TSIG error as a 12-bit Rcode
+    b.u16(err)
     b.counted16()
 
 
